@@ -292,8 +292,8 @@ class DispatchView(object):
                 if not clean or len(ds_) != 1:
                     raise AnalysisError('Application.dispatch: the local holding the result of route.match_method is re-bound')
                 self._mvars[st.targets[0].id] = c
-            elif not (isinstance(st, ast.If) and self._within(c, st.test)):
-                raise AnalysisError('Application.dispatch: the result of route.match_method(...) is neither bound to a local nor tested directly')
+            # otherwise the call is part of a larger expression (``if not route.match_method(m):``, ``refused = not
+            # route.match_method(m)``): conditions on that expression are recognised by its text
         self.method_call = self.method_calls[0]
         if len(self.method_calls) > 1:
             for t_, p_ in self.cfg.conds_at_stmt(self.exec_st):
@@ -370,20 +370,25 @@ class DispatchView(object):
         """conditions say the method was admitted"""
         return has_cond(cs, self.is_method_test, True)
 
+    def branches_where(self, pred, pol):
+        """Branch nodes whose own test (conjunctions / disjunctions split, named conditions expanded, definitions
+        substituted) says ``pred`` holds with polarity ``pol``."""
+        out = []
+        for n in self.cfg.nodes:
+            if n.kind == 'branch' and self.cfg.reachable(n.id) and has_cond(self.branch_conds(n.id), pred, pol):
+                out.append(n.id)
+        return out
+
     def method_branches(self, pol):
-        return [nid for nid, t_, p_ in self.cfg.branches() if self.is_method_test(t_) and p_ is pol]
+        return self.branches_where(self.is_method_test, pol)
 
     def matched_conds(self, cs):
         return has_cond(cs, lambda t: self.nomatch_pol(t) is True, False) or has_cond(cs, lambda t: self.nomatch_pol(t) is False, True)
 
     def nomatch_branches(self):
         """Branch nodes taken exactly when the pattern did not match."""
-        out = []
-        for nid, t_, p_ in self.cfg.branches():
-            k = self.nomatch_pol(t_)
-            if k is not None and k is p_:
-                out.append(nid)
-        return out
+        return sorted(set(self.branches_where(lambda t: self.nomatch_pol(t) is True, True)) |
+                      set(self.branches_where(lambda t: self.nomatch_pol(t) is False, False)))
 
     def calls_stmt(self, tail, recv=None):
         out = []
